@@ -739,14 +739,28 @@ Proof.
 Qed.
 
 (* ---- coverage: whenever the strict monitor accepts the left sequence it accepts the right one, with the same state ---- *)
-Definition Cov (a c : list qev) : Prop :=
-  forall resets m m', srun resets a m = Some m' -> srun resets c m = Some m'.
+(* ... and the same with the queue_unset events removed from both (the PCI reading: queue_unset does nothing) *)
+Definition is_qunset (e : qev) : bool := match e with QUnset _ => true | _ => false end.
+Definition nuq (l : list qev) : list qev := filter (fun e => negb (is_qunset e)) l.
 
-Lemma Cov_refl a : Cov a a. Proof. intros r m m' H. exact H. Qed.
-Lemma Cov_app a1 c1 a2 c2 : Cov a1 c1 -> Cov a2 c2 -> Cov (a1 ++ a2) (c1 ++ c2).
+Lemma nuq_app a b : nuq (a ++ b) = nuq a ++ nuq b.
+Proof. apply filter_app. Qed.
+
+Definition Cov1 (a c : list qev) : Prop :=
+  forall resets m m', srun resets a m = Some m' -> srun resets c m = Some m'.
+Definition Cov (a c : list qev) : Prop := Cov1 a c /\ Cov1 (nuq a) (nuq c).
+
+Lemma Cov1_refl a : Cov1 a a. Proof. intros r m m' H. exact H. Qed.
+Lemma Cov1_app a1 c1 a2 c2 : Cov1 a1 c1 -> Cov1 a2 c2 -> Cov1 (a1 ++ a2) (c1 ++ c2).
 Proof.
   intros H1 H2 r m m' H. rewrite srun_app in H |- *.
   destruct (srun r a1 m) as [m1|] eqn:E; [|discriminate]. rewrite (H1 _ _ _ E). now apply H2.
+Qed.
+
+Lemma Cov_refl a : Cov a a. Proof. split; apply Cov1_refl. Qed.
+Lemma Cov_app a1 c1 a2 c2 : Cov a1 c1 -> Cov a2 c2 -> Cov (a1 ++ a2) (c1 ++ c2).
+Proof.
+  intros [H1 H1'] [H2 H2']. split; [now apply Cov1_app|]. rewrite !nuq_app. now apply Cov1_app.
 Qed.
 
 Lemma silent_projs l : forallb (fun e => match proj e with None => true | Some _ => false end) l = true -> projs l = [].
@@ -764,13 +778,19 @@ Qed.
 Lemma posts_projs q t k : projs (posts q t k) = [].
 Proof. revert t. induction k; intros t; cbn; auto. Qed.
 
-Lemma frees_cov q k : forall t, Cov [QFree q] (projs (frees q t k)).
+Lemma frees_cov1 q k : forall t, Cov1 [QFree q] (projs (frees q t k)).
 Proof.
   induction k as [|k IH]; intros t r m m' H; cbn [frees projs proj].
   - cbn in H. destruct (s_ok m && memN q (s_qs m)); [discriminate|]. inversion H; subst. reflexivity.
   - cbn [srun]. cbn in H. cbn [sstep]. destruct (s_ok m && memN q (s_qs m)) eqn:E; [discriminate|].
     inversion H; subst. apply IH. cbn. now rewrite E.
 Qed.
+
+Lemma nuq_frees q k : forall t, nuq (projs (frees q t k)) = projs (frees q t k).
+Proof. induction k as [|k IH]; intros t; cbn [frees projs proj]; [reflexivity|]. cbn. f_equal. apply IH. Qed.
+
+Lemma frees_cov q k t : Cov [QFree q] (projs (frees q t k)).
+Proof. split; [apply frees_cov1|]. rewrite nuq_frees. apply frees_cov1. Qed.
 
 (* ---- abstract values: what a value does when dropped, with every address erased ---- *)
 Inductive satom := SRel | STr | SUn (q : N) | SBuf (q : N).
@@ -789,7 +809,7 @@ Proof.
   apply Cov_app; [|exact IH].
   destruct x as [[[pa va] pg]|s [[[pa va] pg]|]| |q|q n]; cbn [drop_atom erase_atom sdrop1 projs proj];
     try apply Cov_refl.
-  - intros r m m' H. cbn in H. destruct (s_ok m && nonempty (s_qs m)); [discriminate|]. exact H.
+  - split; intros r m m' H; cbn in H; (destruct (s_ok m && nonempty (s_qs m)); [discriminate|]); exact H.
   - apply frees_cov.
 Qed.
 
@@ -1288,10 +1308,10 @@ Proof.
   specialize (Hall _ Hin).
   destruct res as [e|a]; cbn [erase_res acheck] in Hall.
   - cbn [snd]. destruct (srun resets aev s0) as [s1|] eqn:Es; [|discriminate].
-    destruct (srun_sound resets ev q0 s1 (Hcov _ _ _ Es)) as [m1 [Hq _]]. now rewrite Hq.
+    destruct (srun_sound resets ev q0 s1 (proj1 Hcov _ _ _ Es)) as [m1 [Hq _]]. now rewrite Hq.
   - rewrite srun_app in Hall. destruct (srun resets aev s0) as [s1|] eqn:Es; [|discriminate].
     destruct (srun resets (sdrop (erase a)) s1) as [s2|] eqn:Ed; [|discriminate].
-    destruct (srun_sound resets ev q0 s1 (Hcov _ _ _ Es)) as [m1 [Hq1 Ha1]].
+    destruct (srun_sound resets ev q0 s1 (proj1 Hcov _ _ _ Es)) as [m1 [Hq1 Ha1]].
     assert (Hns : noslot a = true) by (eapply run_noslot; [exact Er|reflexivity]).
     assert (Hfr : Forall (fresh_op (q_regs m1)) ops).
     { eapply Forall_impl; [|exact Hfresh]. intros o Ho. unfold fresh_op in *.
@@ -1301,7 +1321,7 @@ Proof.
     destruct (usage md a ops) as [a' ev']. cbn [fst snd] in *.
     assert (Habs : abs m2 = s1) by (rewrite <- Ha1; unfold abs; now rewrite K2, R2).
     rewrite <- E2, <- Habs in Ed.
-    destruct (srun_sound resets (drop_atoms a') m2 s2 (drop_cov a' _ _ _ Ed)) as [m3 [Hq3 _]].
+    destruct (srun_sound resets (drop_atoms a') m2 s2 (proj1 (drop_cov a') _ _ _ Ed)) as [m3 [Hq3 _]].
     now rewrite qui_run_app, Hq1, qui_run_app, Hq2, Hq3.
 Qed.
 
@@ -1446,6 +1466,195 @@ Proof.
   split; [|vm_compute; reflexivity].
   unfold gpu_example_ops. repeat (apply Forall_cons; [vm_compute; first [reflexivity|exact I]|]). apply Forall_nil.
 Qed.
+
+(* ---- the PCI reading: queue_unset does nothing, only a reset quiesces (Model/Teardown.v quiesced_pci_b) ---- *)
+(* PciTransport::queue_unset is a no-op; what makes teardown safe there is that every driver struct declares
+   `transport` as its FIRST field, so the transport is dropped (reset) before the queues' DMA memory and the
+   driver-owned buffers. The statement below is the second sentence of C09 for such a transport. *)
+Lemma no_unset_app a b : no_unset (a ++ b) = no_unset a ++ no_unset b.
+Proof. apply filter_app. Qed.
+
+Lemma projs_no_unset tr : projs (no_unset tr) = nuq (projs tr).
+Proof.
+  unfold no_unset, nuq. induction tr as [|e t IH]; [reflexivity|].
+  destruct e; cbn [filter is_unset negb projs proj is_qunset]; rewrite ?IH; reflexivity.
+Qed.
+
+Lemma registered_no_unset ev : registered (no_unset ev) = registered ev.
+Proof.
+  unfold no_unset. induction ev as [|e t IH]; [reflexivity|].
+  destruct e; cbn [filter is_unset negb registered]; rewrite ?IH; reflexivity.
+Qed.
+
+Definition nu (e : tev) : bool := negb (is_unset e).
+
+Lemma no_unset_id l : forallb nu l = true -> no_unset l = l.
+Proof.
+  unfold no_unset. induction l as [|e t IH]; intros H; [reflexivity|].
+  cbn [forallb] in H. apply andb_prop in H. destruct H as [He Ht]. cbn [filter].
+  unfold nu in He. rewrite He. f_equal. now apply IH.
+Qed.
+
+(* the usage histories contain no queue_unset call *)
+Lemma gpu_teardown_nu old oks atoms : forallb nu (snd (gpu_teardown old oks atoms)) = true.
+Proof.
+  unfold gpu_teardown. destruct old as [[[oa ov] op]|]; [|reflexivity].
+  destruct (take_ok oks) as [k1 o1]. destruct k1; [|reflexivity].
+  destruct (take_ok o1) as [k2 o2]. destruct k2; [|reflexivity].
+  destruct (take_ok o2) as [k3 o3]. destruct k3; reflexivity.
+Qed.
+
+Lemma gpu_attach_nu md w h oks a v atoms : forallb nu (snd (gpu_attach md w h oks a v atoms)) = true.
+Proof.
+  unfold gpu_attach.
+  destruct (take_ok oks) as [kc oks2]. destruct kc; [|reflexivity].
+  destruct (a =? 0); [reflexivity|].
+  destruct (take_ok oks2) as [ka oks3]. destruct ka; [|reflexivity].
+  destruct (take_ok oks3) as [ks oks4]. destruct ks; [|reflexivity].
+  destruct (pages (w32 (w32 (w * h) * 4)) =? 0); reflexivity.
+Qed.
+
+Lemma gpu_res_nu md setup w h oks a v atoms : forallb nu (snd (gpu_res md setup w h oks a v atoms)) = true.
+Proof.
+  unfold gpu_res.
+  destruct (get_slot 0 atoms) as [old|]; [|reflexivity].
+  destruct (if setup then take_ok oks else (true, oks)) as [k0 oks0]. destruct k0; [|reflexivity].
+  destruct ((w * h * 4 =? 0) || (two32 <=? w * h * 4)); [reflexivity|].
+  pose proof (gpu_teardown_nu old oks0 atoms) as H1.
+  destruct (gpu_teardown old oks0 atoms) as [[[kt oks1] atoms1] ev1]. cbn [snd] in H1.
+  destruct kt; cbn [negb]; [|exact H1].
+  pose proof (gpu_attach_nu md w h oks1 a v atoms1) as H2.
+  destruct (gpu_attach md w h oks1 a v atoms1) as [[a2 o2] ev2]. cbn [snd] in *.
+  now rewrite forallb_app, H1, H2.
+Qed.
+
+Lemma gpu_cursor_nu len_ok oks a v atoms : forallb nu (snd (gpu_cursor len_ok oks a v atoms)) = true.
+Proof.
+  unfold gpu_cursor.
+  destruct (get_slot 1 atoms) as [old|]; [|reflexivity].
+  destruct len_ok; [|reflexivity].
+  destruct (a =? 0); [reflexivity|].
+  destruct (take_ok oks) as [k1 o1]. destruct k1; [|reflexivity].
+  destruct (take_ok o1) as [k2 o2]. destruct k2; [|reflexivity].
+  destruct (take_ok o2) as [k3 o3]. destruct k3; [|reflexivity].
+  destruct old as [[[oa ov] op]|]; reflexivity.
+Qed.
+
+Lemma uop_nu md atoms o : forallb nu (snd (uop_step md atoms o)) = true.
+Proof.
+  destruct o as [q t|q t|setup w h oks a v|len_ok oks a v]; cbn [uop_step]; try reflexivity.
+  - pose proof (gpu_res_nu md setup w h oks a v atoms) as H.
+    destruct (gpu_res md setup w h oks a v atoms) as [[a' o'] ev']. exact H.
+  - pose proof (gpu_cursor_nu len_ok oks a v atoms) as H.
+    destruct (gpu_cursor len_ok oks a v atoms) as [[a' o'] ev']. exact H.
+Qed.
+
+Lemma usage_nu md ops : forall atoms, forallb nu (snd (usage md atoms ops)) = true.
+Proof.
+  induction ops as [|o r IH]; intros atoms; cbn [usage]; [reflexivity|].
+  pose proof (uop_nu md atoms o) as H1. destruct (uop_step md atoms o) as [a1 e1].
+  specialize (IH a1). destruct (usage md a1 r) as [a2 e2]. cbn [snd] in *.
+  now rewrite forallb_app, H1, IH.
+Qed.
+
+Lemma no_unset_usage md atoms ops : no_unset (snd (usage md atoms ops)) = snd (usage md atoms ops).
+Proof. apply no_unset_id, usage_nu. Qed.
+
+(* the abstract runs under the strict monitor, queue_unset events removed, transport drop = reset *)
+Definition acheck_pci (o : option (list satom) * list qev) : bool :=
+  match o with
+  | (None, aev) => is_some (srun true (nuq aev) s0)
+  | (Some sa, aev) => is_some (srun true (nuq aev ++ nuq (sdrop sa)) s0)
+  end.
+Definition all_ok_pci (legacy : bool) (p : list cstep) : bool :=
+  forallb acheck_pci (arun legacy p ([], true)).
+
+Lemma quiesced_core_pci legacy p al cf gn utf8 chk md ops :
+  (forall aev, In (erase_res (fst (run legacy p (cst0 al cf gn utf8 chk))), aev) (arun legacy p ([], true)) ->
+               acheck_pci (erase_res (fst (run legacy p (cst0 al cf gn utf8 chk))), aev) = true) ->
+  Forall (fresh_op (registered (snd (run legacy p (cst0 al cf gn utf8 chk))))) ops ->
+  quiesced_pci_b (snd (lifecycle legacy p (cst0 al cf gn utf8 chk) md ops)) = true.
+Proof.
+  intros Hall Hfresh. unfold quiesced_pci_b, quiesced_b, lifecycle. set (c := cst0 al cf gn utf8 chk) in *.
+  destruct (run legacy p c) as [res ev] eqn:Er. cbn [fst snd] in Hfresh, Hall.
+  destruct (run_sim _ _ _ _ _ Er) as [aev [Hin Hcov]].
+  specialize (Hall _ Hin).
+  destruct res as [e|a]; cbn [erase_res acheck_pci] in Hall.
+  - cbn [snd]. destruct (srun true (nuq aev) s0) as [s1|] eqn:Es; [|discriminate].
+    pose proof (proj2 Hcov _ _ _ Es) as Hc. rewrite <- projs_no_unset in Hc.
+    destruct (srun_sound true (no_unset ev) q0 s1 Hc) as [m1 [Hq _]]. now rewrite Hq.
+  - rewrite srun_app in Hall. destruct (srun true (nuq aev) s0) as [s1|] eqn:Es; [|discriminate].
+    destruct (srun true (nuq (sdrop (erase a))) s1) as [s2|] eqn:Ed; [|discriminate].
+    pose proof (proj2 Hcov _ _ _ Es) as Hc. rewrite <- projs_no_unset in Hc.
+    destruct (srun_sound true (no_unset ev) q0 s1 Hc) as [m1 [Hq1 Ha1]].
+    assert (Hns : noslot a = true) by (eapply run_noslot; [exact Er|reflexivity]).
+    assert (Hfr : Forall (fresh_op (q_regs m1)) ops).
+    { eapply Forall_impl; [|exact Hfresh]. intros o Ho. unfold fresh_op in *.
+      destruct (op_region o) as [[ra rp]|]; [|exact I].
+      eapply existsb_incl; [|exact Ho].
+      pose proof (regs_incl _ _ _ _ Hq1) as Hi. rewrite registered_no_unset in Hi. exact Hi. }
+    destruct (usage_qui true md ops a m1 (noslot_fresh _ _ Hns) Hfr) as (m2 & Hq2 & K2 & R2 & E2).
+    pose proof (no_unset_usage md a ops) as Hnu.
+    destruct (usage md a ops) as [a' ev']. cbn [fst snd] in *.
+    assert (Habs : abs m2 = s1) by (rewrite <- Ha1; unfold abs; now rewrite K2, R2).
+    rewrite <- E2, <- Habs in Ed.
+    pose proof (proj2 (drop_cov a') _ _ _ Ed) as Hd. rewrite <- projs_no_unset in Hd.
+    destruct (srun_sound true (no_unset (drop_atoms a')) m2 s2 Hd) as [m3 [Hq3 _]].
+    rewrite !no_unset_app, Hnu.
+    now rewrite qui_run_app, Hq1, qui_run_app, Hq2, Hq3.
+Qed.
+
+Theorem quiesced_any_program_pci legacy p al cf gn utf8 chk md ops :
+  all_ok_pci legacy p = true ->
+  Forall (fresh_op (registered (snd (run legacy p (cst0 al cf gn utf8 chk))))) ops ->
+  quiesced_pci_b (snd (lifecycle legacy p (cst0 al cf gn utf8 chk) md ops)) = true.
+Proof.
+  intros Hall Hfresh. apply quiesced_core_pci; [|exact Hfresh].
+  intros aev Hin. unfold all_ok_pci in Hall. rewrite forallb_forall in Hall. exact (Hall _ Hin).
+Qed.
+
+Lemma drivers_all_ok_pci d nq legacy : all_ok_pci legacy (prog d nq) = true.
+Proof.
+  unfold prog.
+  repeat match goal with |- context [if ?b then _ else _] => destruct b end;
+    destruct legacy; vm_compute; reflexivity.
+Qed.
+
+(* C09, second sentence, on a transport whose queue_unset does nothing (PciTransport): every driver, both
+   layouts, every fault, every history. No queue_unset call is counted as quiescing anything. *)
+Theorem quiesced_drivers_pci d nq legacy al cf gn utf8 chk md ops :
+  Forall (fresh_op (registered (snd (run legacy (prog d nq) (cst0 al cf gn utf8 chk))))) ops ->
+  quiesced_pci_b (snd (lifecycle legacy (prog d nq) (cst0 al cf gn utf8 chk) md ops)) = true.
+Proof. apply quiesced_any_program_pci, drivers_all_ok_pci. Qed.
+
+(* The PCI reading is strictly stronger than the reading in which queue_unset disables the queue, and it is what
+   ties the position of the `transport` field to the property: the event sequence of a VirtIOBlk whose `transport`
+   field is declared LAST (queue_unset(0) in Drop::drop, then the queue's two regions, then the transport) passes
+   the monitor that believes queue_unset and fails the PCI one. *)
+Definition prog_blk_transport_last : list cstep :=
+  begin_init ++ [CCfg true [(0, 4); (4, 4)]; CQueue 1 0 16; finish_init;
+                 CBuild 9 [0] [FLocal 1; FTransport]].
+Definition pci_witness : list tev :=
+  [TStatus 0; TStatus 3; TStatus 11; TGen; TCfg 0 4; TCfg 4 4; TGen;
+   TAlloc 1 0 4096 1; TAlloc 1 1 8192 2; TQueueSet 0 16 4096 4352 8192; TStatus 15;
+   TQueueUnset 0; TDealloc 4096 1 1; TDealloc 8192 2 1; TDrop].
+
+Theorem pci_needs_transport_first :
+  snd (lifecycle false prog_blk_transport_last (cst0 [(4096, 1); (8192, 2)] [(0, 8); (0, 0)] [] true true) Debug []) = pci_witness
+  /\ balanced_b pci_witness = true
+  /\ quiesced_b true pci_witness = true
+  /\ quiesced_b false pci_witness = true
+  /\ quiesced_pci_b pci_witness = false
+  /\ all_ok_pci false prog_blk_transport_last = false.
+Proof. repeat split; vm_compute; reflexivity. Qed.
+
+(* ... while the driver as it is (transport first) gives unset, transport drop, dealloc, dealloc on the same input *)
+Example pci_witness_real_order :
+  snd (lifecycle false (prog D_BLK 0) (cst0 [(4096, 1); (8192, 2)] [(0, 8); (0, 0)] [] true true) Debug []) =
+  [TStatus 0; TStatus 3; TStatus 11; TGen; TCfg 0 4; TCfg 4 4; TGen;
+   TAlloc 1 0 4096 1; TAlloc 1 1 8192 2; TQueueSet 0 16 4096 4352 8192; TStatus 15;
+   TQueueUnset 0; TDrop; TDealloc 4096 1 1; TDealloc 8192 2 1].
+Proof. vm_compute. reflexivity. Qed.
 
 (* ================================================================================================ *)
 (* Part D: what a true verdict of the monitors means, stated without the monitors                  *)
@@ -1677,6 +1886,13 @@ Theorem drivers_Quiesced d nq legacy al cf gn utf8 chk md ops :
   Forall (fresh_op (registered (snd (run legacy (prog d nq) (cst0 al cf gn utf8 chk))))) ops ->
   Quiesced true (snd (lifecycle legacy (prog d nq) (cst0 al cf gn utf8 chk) md ops)).
 Proof. intros H. apply quiesced_b_sound, quiesced_drivers, H. Qed.
+
+(* the PCI reading, declaratively: in the event sequence without the queue_unset calls (so `Registered` ends only at a
+   reset or a re-registration) nothing registered or outstanding is released while the device is live *)
+Theorem drivers_Quiesced_pci d nq legacy al cf gn utf8 chk md ops :
+  Forall (fresh_op (registered (snd (run legacy (prog d nq) (cst0 al cf gn utf8 chk))))) ops ->
+  Quiesced true (no_unset (snd (lifecycle legacy (prog d nq) (cst0 al cf gn utf8 chk) md ops))).
+Proof. intros H. apply quiesced_b_sound. exact (quiesced_drivers_pci d nq legacy al cf gn utf8 chk md ops H). Qed.
 
 (* the declarative predicates are not vacuous: on the GPU example history the device IS live on both queues when the
    frame buffer and cursor regions are released *)
